@@ -15,11 +15,11 @@ pub fn wait_flag(env: &Env, flag: usize) {
     world::wait_until(|_| env.flags[flag].load(SeqCst) != 0);
 }
 
-#[cfg(feature = "native")]
+#[cfg(any(feature = "native", feature = "loomck"))]
 pub use std::thread::{spawn, JoinHandle};
 
 /// Minimal executor for the native backend: poll, park until woken.
-#[cfg(feature = "native")]
+#[cfg(any(feature = "native", feature = "loomck"))]
 pub fn block_on<F: std::future::Future>(f: F) -> F::Output {
     use std::sync::Arc;
     use std::task::{Context, Poll, Wake, Waker};
